@@ -1,4 +1,4 @@
-(* C13 level-1 model runner: prints the BLAS call the Coq model (Modelc13.dot_n_model / l1_xy / l1_x) says the adaptor makes. *)
+(* C13 level-1 model runner: prints the BLAS call the Coq model (Modelc13.dot_n_model, axpy_call, copy_call, swap_call, scal_call, red_call: Model/BlasC13L1Ref.v) says the adaptor makes. *)
 open Modelc13
 open C13_zu
 
@@ -33,21 +33,21 @@ let run (obs : Buffer.t) (id : string) (routine : string) (et : string) (form : 
    | "axpy" | "copy" | "swap" ->
        let y' = if routine = "copy" && form = "construct"
          then { vbase = z (if i x.len = 0 then 8000000 else 4000000); inc = z 1; len = x.len; vconj = false } else y in
-       let c = l1_xy x y' in
+       let c = (match routine with "axpy" -> axpy_call x y' | "copy" -> copy_call x y' | _ -> swap_call x y') in
        pr "K %s 0 %s%s n=%d %s %d %s %d%s\n" id et routine (i c.l_n) (show_where (i c.l_px)) (i c.l_incx) (show_where (i c.l_py)) (i c.l_incy)
          (if routine = "axpy" then (let (r, m) = if form = "opminus" then (- (fst al), - (snd al)) else al in Printf.sprintf " a=%d,%d" r m) else "");
        ok ()
    | "scal" ->
-       let c = l1_x x in
+       let c = scal_call x in
        pr "K %s 0 %sscal n=%d %s %d a=%d,%d\n" id et (i c.l_n) (show_where (i c.l_px)) (i c.l_incx) (fst al) (snd al);
        ok ()
    | "nrm2" | "asum" ->
-       let c = l1_x x in
+       let c = red_call x in
        let name = (match et with "s" -> "s" | "d" -> "d" | "c" -> "sc" | _ -> "dz") ^ routine in
        pr "K %s 0 %s n=%d %s %d\n" id name (i c.l_n) (show_where (i c.l_px)) (i c.l_incx);
        ok ()
    | "iamax" ->
-       let c = l1_x x in
+       let c = red_call x in
        pr "K %s 0 i%samax n=%d %s %d\n" id et (i c.l_n) (show_where (i c.l_px)) (i c.l_incx);
        ok ()
    | _ -> pr "O %s outcome=model-error why=unsupported-%s\n" id routine)
